@@ -140,6 +140,10 @@ pub fn run(ctx: &Ctx, st: &mut Stats) -> Vec<Violation> {
     if !v.is_empty() {
         return v;
     }
+    v.extend(c03::banded_images(ctx, st, "C10", check_named, &[Dir::ToLinear]));
+    if !v.is_empty() {
+        return v;
+    }
     let stride = if ctx.light { 1021 } else { ctx.pick(127, 1) };
     v.extend(c03::sweep(ctx, st, "C10", stride, check_named, &[Dir::ToLinear]));
     if stride == 1 && v.is_empty() {
